@@ -92,7 +92,7 @@ fn dispatch(name: &str, ctx: &Ctx, rep: &mut Report) -> bool {
         "slot_probe" => slot_probe(ctx, rep),
         "cost" => cost(ctx, rep),
         "reuse" => reuse(ctx, rep),
-        "container" => container(ctx, rep),
+        "container" => { container(ctx, rep); container_large(ctx, rep); }
         _ => return false,
     }
     true
@@ -149,6 +149,8 @@ fn oracle_cases(ctx: &Ctx, count: usize, maxn: u64, maxn_prim: u64) -> Vec<AlgoC
         let n = match rng.below(12) { 0 => rng.below(4), 1..=5 => rng.range(2, cap.min(24)), 6..=8 => rng.range(cap.min(16), cap.min(80)), 9 | 10 => boundary_size(&mut rng, cap), _ => rng.range(cap / 2, cap) };
         let fam = FAMILIES[rng.below(FAMILIES.len() as u64) as usize];
         let fam = if rng.below(3) == 0 { ["lattice", "duppoints", "neartie", "allequal"][rng.below(4) as usize] } else { fam };
+        // single / complete never add: values up to and including the largest finite one are in domain
+        let fam = if method <= 1 && rng.below(12) == 0 { "maxmag" } else { fam };
         let v = matrix_f64(&mut rng, n as usize, fam, wide);
         out.push(AlgoCase { algo, method, wide, n, bits: to_bits(&v, wide), family: fam });
     }
@@ -374,7 +376,7 @@ fn sweep_single(ctx: &Ctx, rep: &mut Report) {
         let wide = i % 3 != 0;
         let cap: u64 = match (algo, ctx.big) { (4, false) => 40, (4, true) => 90, (_, false) => 150, (_, true) => 500 };
         let n = if i % 10 == 0 { rng.range(2, 5) } else if i % 10 == 3 || i % 10 == 7 { boundary_size(&mut rng, cap.max(40)) } else { rng.range(2, cap) };
-        let fam = ["lattice", "duppoints", "uniform", "negative", "allequal", "neartie", "euclid", "collinear", "pow2", "allzero", "negzero", "uniform"][rng.below(12) as usize];
+        let fam = ["lattice", "duppoints", "uniform", "negative", "allequal", "neartie", "euclid", "collinear", "pow2", "allzero", "negzero", "uniform", "maxmag"][rng.below(13) as usize];
         let v = matrix_f64(&mut rng, n as usize, fam, wide);
         cases.push(AlgoCase { algo, method: 0, wide, n, bits: to_bits(&v, wide), family: fam });
     }
@@ -417,6 +419,17 @@ fn separated_matrix(rng: &mut Rng, n: usize, kind: u64) -> Vec<f64> {
         0 => { let mut v: Vec<f64> = (0..len).map(|k| 1.0 + k as f64 / len as f64).collect();
                for i in (1..len).rev() { let j = rng.below(i as u64 + 1) as usize; v.swap(i, j); } v }
         1 => matrix_f64(rng, n, "euclid", true),
+        3 => {
+            // points on a line with strictly shrinking gaps: the nearest neighbour of each point is
+            // the next one, so a nearest-neighbour chain runs through (a large part of) all points
+            let s = 50.0 + rng.unit() * 100.0;
+            let xs: Vec<f64> = (0..n).map(|i| s * ((1 + i) as f64).ln()).collect();
+            let mut lab: Vec<usize> = (0..n).collect();
+            if rng.below(2) == 0 { for i in (1..n).rev() { let j = rng.below(i as u64 + 1) as usize; lab.swap(i, j); } }
+            let mut v = Vec::with_capacity(len);
+            for a in 0..n { for b in a + 1..n { v.push((xs[lab[a]] - xs[lab[b]]).abs()); } }
+            v
+        }
         _ => matrix_f64(rng, n, "uniform", true),
     }
 }
@@ -440,7 +453,10 @@ fn agree(ctx: &Ctx, rep: &mut Report) {
         let n = if wide && i % 9 == 4 { rng.range(64, if ctx.big { 300 } else { 150 }) as usize }
                 else if wide && i % 9 == 7 { if i % 2 == 0 { boundary_size(&mut rng, 257) as usize } else { rng.range(130, if ctx.big { 400 } else { 280 }) as usize } }
                 else { rng.range(2, cap) as usize };
-        let kind = rng.below(3); let v0 = separated_matrix(&mut rng, n, kind);
+        let kind = rng.below(4);
+        // long nearest-neighbour chains need enough points
+        let n = if kind == 3 && wide { n.max(rng.range(66, if ctx.big { 260 } else { 140 }) as usize) } else { n };
+        let v0 = separated_matrix(&mut rng, n, kind);
         let bits = to_bits(&v0, wide);
         let base = AlgoCase { algo: 0, method, wide, n: n as u64, bits, family: "separated" };
         let v = vals_of(&base);
@@ -508,7 +524,12 @@ fn scale(ctx: &Ctx, rep: &mut Report) {
         cases.push(AlgoCase { algo, method, wide, n, bits: to_bits(&v, wide), family: fam });
     }
     for c in cases {
-        let ks: &[i32] = if c.wide { &[1, -1, 10, -10, 60, -60, 100, -100] } else { &[1, -1, 7, -7, 18, -18] };
+        // fixed factors plus factors drawn from the whole safe range (squares included): an
+        // absolute constant anywhere on the magnitude axis is straddled by some case
+        let mut ks: Vec<i32> = if c.wide { vec![1, -1, 10, -10, 60, -60, 100, -100] } else { vec![1, -1, 7, -7, 18, -18] };
+        let span: i64 = if c.wide { 480 } else { 52 };
+        for _ in 0..4 { ks.push((rng.below(2 * span as u64 + 1) as i64 - span) as i32); }
+        let ks: &[i32] = &ks;
         tick(&ctx.progress, &c.describe());
         let base = run_fresh_w(c.wide, c.algo, c.method, c.n, &c.bits);
         let bs = match &base { Outcome::Ok { steps, .. } => steps.clone(), Outcome::Panic(..) => continue };
@@ -568,7 +589,7 @@ fn order_only(ctx: &Ctx, rep: &mut Report) {
         let wide = rng.below(3) != 0;
         let cap = if algo == 4 { 30 } else if ctx.big { 100 } else { 50 };
         let n = rng.range(2, cap);
-        let fam = ["uniform", "lattice", "duppoints", "euclid", "allequal", "sorted", "revsorted", "signed", "negative"][rng.below(9) as usize];
+        let fam = ["uniform", "lattice", "duppoints", "euclid", "allequal", "sorted", "revsorted", "signed", "negative", "neartie", "neartie", "negzero", "tiechain", "maxmag"][rng.below(14) as usize];
         let v = matrix_f64(&mut rng, n as usize, fam, wide);
         cases.push(AlgoCase { algo, method, wide, n, bits: to_bits(&v, wide), family: fam });
     }
@@ -641,7 +662,7 @@ fn permute(ctx: &Ctx, rep: &mut Report) {
         let n = if wide && i % 9 == 4 { rng.range(64, if ctx.big { 300 } else { 150 }) as usize }
                 else if wide && (i % 9 == 7 || i % 9 == 1) { if i % 2 == 0 { boundary_size(&mut rng, 257).max(3) as usize } else { rng.range(130, if ctx.big { 400 } else { 280 }) as usize } }
                 else { rng.range(3, cap) as usize };
-        let kind = rng.below(3); let v0 = separated_matrix(&mut rng, n, kind);
+        let kind = rng.below(4); let v0 = separated_matrix(&mut rng, n, kind);
         let bits = to_bits(&v0, wide);
         let probe = AlgoCase { algo: 0, method, wide, n: n as u64, bits: bits.clone(), family: "separated" };
         let v = vals_of(&probe);
@@ -876,7 +897,8 @@ fn container(ctx: &Ctx, rep: &mut Report) {
         let mut sizes: Vec<usize> = vec![];
         for k in 0..cap + 2 {
             let (c1, c2, sz) = (rng.below(20) as usize, rng.below(20) as usize, 1 + rng.below(9) as usize);
-            let x = (rng.below(50) as f64) * 0.25;
+            // non-NaN dissimilarities include the infinities (clustering returns them for +inf input)
+            let x = match rng.below(14) { 0 => f64::INFINITY, 1 => f64::NEG_INFINITY, _ => (rng.below(50) as f64) * 0.25 };
             let res = catch(|| d.push(Step::new(c1, c2, x, sz)));
             rep.evaluations += 1;
             if (k < cap) != res.is_ok() { rep.violation(format!("C19 violated: Dendrogram for n={}: push #{} {}", n, k + 1, if res.is_ok() { "accepted beyond n-1" } else { "rejected" })); break; }
@@ -908,13 +930,16 @@ fn container(ctx: &Ctx, rep: &mut Report) {
         let len2 = if rng.below(3) == 0 { rng.below(n2.max(1) as u64) as usize } else { d.len().min(n2.saturating_sub(1)) };
         for k in 0..len2 {
             let (c1, c2, x, sz) = if k < d.len() { (d[k].cluster1, d[k].cluster2, d[k].dissimilarity, d[k].size) } else { (1, 2, 1.0, 2) };
-            let x2 = match rng.below(5) { 0 => x + 0.5, 1 => x - 0.125, 2 => x * (1.0 + 1e-9), _ => x };
+            let x2 = match rng.below(16) { 0..=2 => x + 0.5, 3..=5 => x - 0.125, 6..=8 => x * (1.0 + 1e-9), 9 => f64::INFINITY, 10 => -x, _ => x };
+            let x2 = if x2.is_nan() { x } else { x2 };
             let (c1, sz) = (if rng.below(12) == 0 { c1 + 1 } else { c1 }, if rng.below(12) == 0 { sz + 1 } else { sz });
             let _ = catch(|| e.push(Step::new(c1, c2, x2, sz)));
         }
-        for eps in [0.0, 0.125, 0.5, 1e-9, 0.4999, 3.0] {
+        for eps in [0.0, 0.125, 0.5, 1e-9, 0.4999, 3.0, f64::MAX, f64::INFINITY] {
+            // "differing by at most epsilon": equal values (equal infinities too) differ by 0
             let want = d.len() == e.len() && d.steps().iter().zip(e.steps()).all(|(s, t)|
-                s.cluster1 == t.cluster1 && s.cluster2 == t.cluster2 && s.size == t.size && (s.dissimilarity - t.dissimilarity).abs() <= eps);
+                s.cluster1 == t.cluster1 && s.cluster2 == t.cluster2 && s.size == t.size
+                && (s.dissimilarity == t.dissimilarity || (s.dissimilarity - t.dissimilarity).abs() <= eps));
             let got = d.eq_with_epsilon(&e, eps);
             rep.evaluations += 1;
             rep.nontrivial.insert(hash64(&[r as u64, eps.to_bits()]));
@@ -924,6 +949,85 @@ fn container(ctx: &Ctx, rep: &mut Report) {
             if r == 3 && eps == 0.125 { rep.sample(format!("n={} steps={:?} vs n={} steps={:?} eps={} -> {}", n, steps_of(&d), n2, steps_of(&e), eps, got)); }
         }
     }
+}
+
+/// larger containers: labels and sizes beyond 2^8 / 2^16 / 2^24 (f32 exactness), capacity after
+/// resets to smaller / equal / larger sizes, tolerance boundaries
+fn container_large(ctx: &Ctx, rep: &mut Report) {
+    use kodama::{Dendrogram, Step};
+    let mut rng = Rng::new(ctx.seed ^ 0xC19B);
+    let sizes_n: &[usize] = if ctx.big { &[300, 70001, 140000] } else { &[300, 70001] };
+    for &n in sizes_n {
+        tick(&ctx.progress, &format!("large container n={}", n));
+        let mut d: Dendrogram<f64> = Dendrogram::new(n);
+        let mut want: Vec<usize> = vec![];
+        for k in 0..n - 1 {
+            // chain: the cluster made by step k-1 (label n+k-1) joins observation k+1
+            let (c1, c2) = if k == 0 { (0, 1) } else { (n + k - 1, k + 1) };
+            let sz = k + 2;
+            if catch(|| d.push(Step::new(c1, c2, k as f64 * 0.5, sz))).is_err() { rep.violation(format!("C19 violated: Dendrogram for n={}: push #{} rejected", n, k + 1)); return; }
+            want.push(sz);
+        }
+        rep.evaluations += n as u64;
+        if catch(|| d.push(Step::new(0, 1, 0.0, 2))).is_ok() { rep.violation(format!("C19 violated: Dendrogram for n={}: push #{} accepted beyond n-1", n, n)); }
+        if d.len() != n - 1 || d.observations() != n { rep.violation(format!("C19 violated: n={} after n-1 pushes: len {} observations {}", n, d.len(), d.observations())); }
+        for label in (0..2 * n - 1).step_by(if n > 1000 { 7 } else { 1 }).chain([n - 1, n, n + 255, n + 256, n + 65535, n + 65536, 2 * n - 2].iter().cloned().filter(|&l| l < 2 * n - 1)) {
+            let w = if label < n { 1 } else { want[label - n] };
+            match catch(|| d.cluster_size(label)) {
+                Ok(v) if v == w => {}
+                other => { rep.violation(format!("C19 violated: cluster_size({}) on the chain dendrogram of n={} gives {:?}, expected {}", label, n, other.map_err(|e| e.1), w)); break; }
+            }
+            rep.evaluations += 1;
+        }
+        // stored fields of steps with large labels
+        for k in [0usize, 255, 256, 65535, 65536, n - 2] { if k < n - 1 {
+            let s = &d[k]; let (c1, c2) = if k == 0 { (0, 1) } else { (n + k - 1, k + 1) };
+            if (s.cluster1, s.cluster2) != (c1.min(c2), c1.max(c2)) || s.size != k + 2 { rep.violation(format!("C19 violated: step {} of the chain dendrogram n={} stored as ({}, {}, size {})", k, n, s.cluster1, s.cluster2, s.size)); }
+        }}
+        // resets: smaller, equal, larger
+        for &m in &[n / 3, n / 3, n, 5usize, 0, 1, 2] {
+            d.reset(m);
+            rep.evaluations += 1;
+            if d.len() != 0 || d.observations() != m { rep.violation(format!("C19 violated: reset({}) after a dendrogram of n={} gives len {} observations {}", m, n, d.len(), d.observations())); }
+            let cap = m.saturating_sub(1);
+            let probe = cap.min(40);
+            for k in 0..probe { let _ = catch(|| d.push(Step::new(k, k + 1, 1.0, 2))); }
+            if d.len() != probe { rep.violation(format!("C19 violated: after reset({}) only {} of {} pushes were accepted", m, d.len(), probe)); }
+            if probe == cap && catch(|| d.push(Step::new(0, 1, 1.0, 2))).is_ok() { rep.violation(format!("C19 violated: after reset({}) (previously n={}) push #{} accepted beyond n-1", m, n, cap + 1)); }
+        }
+    }
+    // Step::new / set_clusters with large and equal labels
+    for (a, b) in [(1usize << 31, (1usize << 31) + 1), ((1usize << 32) + 5, 7), (usize::MAX, 0), (usize::MAX - 1, usize::MAX), (9, 9), ((1usize << 33), (1usize << 33))] {
+        let s = Step::new(a, b, 1.0f64, 2);
+        if (s.cluster1, s.cluster2) != (a.min(b), a.max(b)) { rep.violation(format!("C19 violated: Step::new({}, {}) stored ({}, {})", a, b, s.cluster1, s.cluster2)); }
+        let mut t = Step::new(0, 1, 1.0f64, 2); t.set_clusters(b, a);
+        if (t.cluster1, t.cluster2) != (a.min(b), a.max(b)) { rep.violation(format!("C19 violated: set_clusters({}, {}) stored ({}, {})", b, a, t.cluster1, t.cluster2)); }
+        rep.evaluations += 2;
+    }
+    // eq_with_epsilon: differences exactly at, just below and just above epsilon; sizes / labels that differ only beyond f32 precision
+    let base: Vec<(usize, usize, f64, usize)> = vec![(0, 1, 1.0, 2), (2, 3, 2.5, 16777216), (4, 16777217, 4.0, 3)];
+    for (field, delta, eps, want) in [
+        (2usize, 0.5f64, 0.5f64, true), (2, 0.5, 0.4999999999999999, false), (2, 0.25, 0.25, true), (2, 0.0, 0.0, true), (2, 2.220446049250313e-16, 0.0, false), (2, 2.220446049250313e-16, 2.220446049250313e-16, true),
+        (3, 1.0, 10.0, false), (1, 1.0, 10.0, false), (0, 1.0, 10.0, false),
+    ] {
+        for pos in 0..base.len() {
+            let mut l: Dendrogram<f64> = Dendrogram::new(4); let mut r: Dendrogram<f64> = Dendrogram::new(4);
+            for (k, &(c1, c2, x, sz)) in base.iter().enumerate() {
+                l.push(Step::new(c1, c2, x, sz));
+                let (mut c1r, mut c2r, mut xr, mut szr) = (c1, c2, x, sz);
+                if k == pos { match field { 0 => c1r += delta as usize, 1 => c2r += delta as usize, 2 => xr += delta, _ => szr += delta as usize } }
+                r.push(Step::new(c1r, c2r, xr, szr));
+            }
+            // the statement, evaluated on what was stored
+            let _ = want;
+            let expect = l.len() == r.len() && l.steps().iter().zip(r.steps()).all(|(s, t)|
+                s.cluster1 == t.cluster1 && s.cluster2 == t.cluster2 && s.size == t.size && (s.dissimilarity - t.dissimilarity).abs() <= eps);
+            let got = l.eq_with_epsilon(&r, eps);
+            rep.evaluations += 1;
+            if got != expect { rep.violation(format!("C19 violated: eq_with_epsilon(eps={:e}) is {} but the statement gives {}: step {} differs in field {} by {:e}: {:?} vs {:?}", eps, got, expect, pos, field, delta, steps_of(&l), steps_of(&r))); }
+        }
+    }
+    let _ = &mut rng;
 }
 
 // ------------------------------------------------------------------ C13
@@ -978,6 +1082,57 @@ fn shape_sweep(rep: &mut Report, seed: u64, big: bool) {
                     rep.sample(format!("{}{} n={} len={} -> {}", ALGO_NAMES[algo as usize], if use_with { "_with" } else { "" }, n, len,
                         match &res { Ok(k) => format!("ok {} steps", k), Err((c, _)) => format!("panic class {}", c) }));
                 }
+            }
+        }
+    }
+    // lengths that collide with n(n-1)/2 modulo 2^8, 2^16 or 2^32 (a shape check computed in a
+    // narrower or wrapping integer accepts them), and off-by-a-few lengths at larger n
+    let mut pairs: Vec<(u64, usize)> = vec![];
+    let cand_n: Vec<u64> = {
+        let mut v: Vec<u64> = vec![23, 24, 33, 65, 91, 129, 257, 362, 363, 364, 513, 1000, 1449, 2896, 4097, 65537, 92682, 92683, 92684, 100000, 131073];
+        for _ in 0..(if big { 120 } else { 40 }) { v.push(rng.range(65, 120000)); }
+        v
+    };
+    let cap_len = if big { 400000usize } else { 70000 };
+    for &n in &cand_n {
+        let exact = n * (n - 1) / 2;
+        for k in [8u32, 16, 32] {
+            let l = (exact % (1u64 << k)) as usize;
+            if (l as u64) != exact && l <= cap_len { pairs.push((n, l)); }
+            let l2 = ((n * (n - 1)) % (1u64 << k) / 2) as usize;
+            if (l2 as u64) != exact && l2 <= cap_len { pairs.push((n, l2)); }
+        }
+        if exact <= cap_len as u64 { for d in [1u64, 2, n / 2, n - 1] { pairs.push((n, (exact + d) as usize)); if exact >= d { pairs.push((n, (exact - d) as usize)); } } }
+    }
+    // off-by-one lengths where the exact length is no longer representable in f32 (>= 2^24): a
+    // shape check evaluated in the matrix's float type accepts them
+    for &(n, wide) in &[(5794u64, false), (5800, false), (5800, true), (4097, false)] {
+        let exact = (n * (n - 1) / 2) as usize;
+        for len in [exact + 1, exact - 1] {
+            for algo in [1u8, 0] {
+                let res = if wide { let mut m: Vec<f64> = vec![1.5; len]; catch(|| call_fresh::<f64>(algo, 0, &mut m, n as usize).len()) }
+                          else { let mut m: Vec<f32> = vec![1.5; len]; catch(|| call_fresh::<f32>(algo, 0, &mut m, n as usize).len()) };
+                rep.evaluations += 1;
+                rep.nontrivial.insert(hash64(&[algo as u64, n, len as u64, 9]));
+                if let Ok(k) = res {
+                    rep.violation(format!("C13 malformed shape accepted: {} single {} n={} len={} (n(n-1)/2 = {}) returned a dendrogram with {} steps",
+                        ALGO_NAMES[algo as usize], if wide { "f64" } else { "f32" }, n, len, exact, k));
+                }
+            }
+        }
+    }
+    let big_vals: Vec<f64> = (0..cap_len + 200000).map(|k| 1.0 + ((k * 7) % 11) as f64).collect();
+    for (n, len) in pairs {
+        if wellformed(n, len) || len > big_vals.len() { continue; }
+        for algo in 0..5u8 {
+            let method = loop { let m = rng.below(7) as u8; if accepts(algo, m) { break m; } };
+            let mut m: Vec<f64> = big_vals[..len].to_vec();
+            let res = catch(|| call_fresh::<f64>(algo, method, &mut m, n as usize).len());
+            rep.evaluations += 1;
+            rep.nontrivial.insert(hash64(&[algo as u64, n, len as u64, 7]));
+            if let Ok(k) = res {
+                rep.violation(format!("C13 malformed shape accepted: {} {} f64 n={} len={} (n(n-1)/2 = {}) returned a dendrogram with {} steps",
+                    ALGO_NAMES[algo as usize], METHOD_NAMES[method as usize], n, len, n * (n - 1) / 2, k));
             }
         }
     }
